@@ -239,6 +239,16 @@ def run_basic(c):
             ck.add(f)
         else:
             ck.check(C.peq_all(m.array, np.append(exp, 1.0), 1, 1e-6), site + ":agrees-with-mirror", (m.array.tolist(), exp.tolist()))
+        # a complex point (such as the common points of two disjoint circles): the mirror image is the image under the reflection
+        q = np.array([float(x) for x in (list(v[11:11 + d]) + [1, 2, 3])[:d]])
+        if np.any(q):
+            pc = np.append(p + 1j * q, 1.0)
+            mc, f = call(site + ":mirror(complex point)", h.mirror, Point(pc))
+            if f:
+                ck.add(f)
+            else:
+                want = np.asarray(t.array, complex) @ pc
+                ck.check(C.peq_all(np.asarray(mc.array, complex), want, 1, 1e-6), site + ":agrees-with-mirror:complex-point", (np.asarray(mc.array).tolist(), want.tolist()))
         rr, f = call(site, lambda: t * t)
         if f:
             ck.add(f)
